@@ -7,6 +7,7 @@ CONSTANTS
   DEV_GlobalPrecision = FALSE
   DEV_AccumulatingRoot = FALSE
     DEV_NoTruncate = FALSE
+  DEV_NetworkCached = FALSE
 VIEW View
 PROPERTY PropOwnInputs
 INVARIANT InvFiles
